@@ -20,7 +20,7 @@ const CORE_NS: &str = "core";
 struct Extra { ns: String, src: String, before: bool }
 
 #[derive(Clone, Copy, Debug, PartialEq, Eq)]
-enum Kind { Main, NonPositive }
+enum Kind { Main, NonPositive, ForOf }
 
 struct Case {
     core: Vec<RuleSpec>, data: Vec<u8>, globals: Vec<GV>, kind: Kind,
@@ -109,8 +109,8 @@ fn gen_case(rng: &mut Rng, kind: Kind, depth: u32, max_extra: usize) -> Case {
     for i in 0..n_core {
         let is_target = i == n_core - 1;
         let global = with_global && i == n_dep;
-        let npats = if is_target && kind == Kind::NonPositive { 2 + rng.below(3) as usize } else if rng.chance(1, 6) { 0 } else { 1 + rng.below(4) as usize };
-        let pats: Vec<Vec<u8>> = (0..npats).map(|_| if kind == Kind::NonPositive { next_unique += 1; pool[next_unique - 1].clone() } else { rng.pick(&pool[..8.min(pool.len())]).clone() }).collect();
+        let npats = if is_target && (kind == Kind::NonPositive || kind == Kind::ForOf) { 2 + rng.below(3) as usize } else if rng.chance(1, 6) { 0 } else { 1 + rng.below(4) as usize };
+        let pats: Vec<Vec<u8>> = (0..npats).map(|_| if kind == Kind::NonPositive || (kind == Kind::ForOf && is_target) { next_unique += 1; pool[next_unique - 1].clone() } else { rng.pick(&pool[..8.min(pool.len())]).clone() }).collect();
         let refs: Vec<usize> = (0..i).filter(|j| !global || core[*j].global).collect();
         let mut g = Gen { rng, npats, fsize: data.len() as i64, scope: vec![], for_of: 0, refs, next_var: 0, slots: 0, max_slots: 58,
                           budget: 25 + 8 * depth as i32, stream: Stream::Main, zero_of: true, iters: 1 };
@@ -122,12 +122,30 @@ fn gen_case(rng: &mut Rng, kind: Kind, depth: u32, max_extra: usize) -> Case {
                 _ => E::Arith(Op::Sub, bx(E::Arith(Op::Sub, bx(E::Count(P::Id(0), None)), bx(E::Count(P::Id(0), None)))), bx(E::Int(g.rng.range(0, 2)))) };
             let t = E::Of(Q::Expr(bx(q)), s, syn, A::None);
             match g.rng.below(4) { 0 => E::Not(bx(t)), 1 => { let o = g.gen_bool(1); E::And(bx(t), bx(o)) } _ => t }
+        } else if is_target && kind == Kind::ForOf {
+            // `for <quantifier> of <set> : (<placeholder test>)` over patterns of the target's own:
+            // the loop variable holds pattern ids, which depend on the rules compiled before
+            let n = g.npats;
+            let (s, syn) = if g.rng.chance(1, 2) { ((0..n).collect::<Vec<_>>(), SetSyn::Them) } else {
+                let mut s: Vec<usize> = (0..n).filter(|_| g.rng.chance(2, 3)).collect(); if s.is_empty() { s.push(n - 1); } (s, SetSyn::List(g.rng.next())) };
+            let q = match g.rng.below(5) { 0 => Q::Any, 1 => Q::All, 2 => Q::None, _ => Q::Expr(bx(E::Int(g.rng.range(1, s.len() as i64 + 1)))) };
+            let body = match g.rng.below(6) {
+                0 => E::Pat(P::Cur, A::None),
+                1 => E::Cmp(Cmp::Gt, bx(E::Count(P::Cur, None)), bx(E::Int(0))),
+                2 => E::Cmp(Cmp::Ge, bx(E::Count(P::Cur, None)), bx(E::Int(g.rng.range(1, 3)))),
+                3 => E::Cmp(Cmp::Lt, bx(E::Offset(P::Cur, None)), bx(E::Int((g.fsize / 2).max(1)))),
+                4 => E::Pat(P::Cur, A::In(bx(E::Int(0)), bx(E::Int((g.fsize / 2).max(1))))),
+                _ => E::Cmp(Cmp::Ge, bx(E::Length(P::Cur, None)), bx(E::Int(2))),
+            };
+            let t = E::ForOf(q, s, syn, bx(body));
+            match g.rng.below(4) { 0 => E::Not(bx(t)), 1 => { let o = g.gen_bool(1); E::Or(bx(t), bx(o)) } _ => t }
         } else { g.gen_bool(if is_target { depth } else { depth.min(2) }) };
         core.push(RuleSpec { ns: 0, global, private: rng.chance(1, 5), pats, cond });
     }
     let target_pats = core.last().unwrap().pats.clone();
     // the unrelated rules
     let n_extra = match rng.below(8) { 0 => 0, 1..=3 => 1 + rng.below(5) as usize, 4 | 5 => 8 + rng.below(25) as usize, _ => 40 + rng.below(161) as usize }.min(max_extra);
+    let n_extra = if kind == Kind::ForOf { n_extra.max(1 + rng.below(4) as usize) } else { n_extra };
     let mut sh = (0usize, 0usize);
     // namespace blocks before the core, the core namespace, blocks after
     let mut before: Vec<(String, String)> = vec![]; let mut after: Vec<(String, String)> = vec![];
@@ -135,7 +153,7 @@ fn gen_case(rng: &mut Rng, kind: Kind, depth: u32, max_extra: usize) -> Case {
     let n_other_ns = 1 + rng.below(24) as usize;
     for k in 0..n_extra {
         let (src, _) = gen_extra(rng, k, &target_pats, &pool, &mut sh);
-        match rng.below(5) {
+        match if kind == Kind::ForOf && k == 0 { 2 } else { rng.below(5) } {
             0 | 1 => in_core_ns.push((rng.below(n_core as u64 + 1) as usize, src)),
             2 | 3 => { let ns = format!("nsb{}", rng.below(n_other_ns as u64)); let src = if rng.chance(1, 10) { format!("global {}", src.replacen("private ", "", 1)) } else { src }; before.push((ns, src)); }
             _ => { let ns = format!("nsa{}", rng.below(n_other_ns as u64)); after.push((ns, src)); }
@@ -168,6 +186,11 @@ fn corpus() -> Vec<Case> {
         Case { core, data: data.to_vec(), globals: g0.clone(), kind, embedded, n_extra: 2, shares_verbatim: 1, shares_modified: 0, extra_in_core_ns: 0, fast_scan: false }
     };
     vec![
+        // the loop variable of `for .. of` holds pattern ids of the whole set, not positions in the rule
+        mk(E::ForOf(Q::Any, vec![0, 1], SetSyn::Them, bx(E::Pat(P::Cur, A::None))), vec![b"qqq", b"abc"], b"xxabc", Kind::ForOf,
+           "rule s0 { strings: $x = \"nothere\" $y = \"neither\" condition: any of them }\n"),
+        mk(E::ForOf(Q::All, vec![0, 1], SetSyn::Them, bx(E::Cmp(Cmp::Gt, bx(E::Count(P::Cur, None)), bx(E::Int(0))))), vec![b"abc", b"xx"], b"xxabc", Kind::ForOf,
+           "rule s0 { strings: $x = \"nothere\" $y = \"neither\" condition: any of them }\n"),
         // the lazily emitted call to search_for_patterns is skipped by an undefined operand
         mk(E::Or(bx(E::Cmp(Cmp::Gt, bx(undef), bx(E::Count(P::Id(0), None)))), bx(E::Pat(P::Id(0), A::None))), vec![b"BAaa"], b"xxBAaa", Kind::Main,
            "rule s0 { strings: $x = \"BAaa\" condition: $x }\n"),
@@ -225,7 +248,7 @@ pub fn run(args: &[String]) -> i32 {
     while shards.total < n {
         attempts += 1;
         if attempts > 3 * n + 50 { break; }
-        let kind = if rng.chance(1, 12) { Kind::NonPositive } else { Kind::Main };
+        let kind = if rng.chance(1, 12) { Kind::NonPositive } else if rng.chance(1, 6) { Kind::ForOf } else { Kind::Main };
         let d = 1 + rng.below(depth as u64) as u32;
         let case = if !corpus.is_empty() { corpus.remove(0) } else { gen_case(&mut rng, kind, d, max_extra) };
         let kind = case.kind; let _ = kind;
@@ -244,7 +267,7 @@ pub fn run(args: &[String]) -> i32 {
             }
         };
         stats.inc("cases");
-        stats.inc(if case.kind == Kind::Main { "stream_main" } else { "stream_of_nonpositive" });
+        stats.inc(match case.kind { Kind::Main => "stream_main", Kind::NonPositive => "stream_of_nonpositive", Kind::ForOf => "stream_for_of" });
         stats.inc(&format!("extra_rules_{}", match case.n_extra { 0 => "0", 1..=5 => "1-5", 6..=39 => "6-39", _ => "40-200" }));
         stats.add("extra_rules_total", case.n_extra as u64);
         stats.add("patterns_shared_verbatim", case.shares_verbatim as u64);
@@ -265,7 +288,7 @@ pub fn run(args: &[String]) -> i32 {
             coq_list(&anch, |a| match a { Anchoring::Free => "(0%nat, 0)".to_string(), Anchoring::At(k) => format!("(1%nat, {})", coq_z(*k as i128).replace("%Z", "")), Anchoring::Unknown => "(2%nat, 0)".to_string() }),
             coq_slice(&single), coq_slice(&embedded), coq_slice(&warm));
         let replay = format!("{{\"index\":{},\"stream\":{},\"target\":{},\"fast_scan\":{},\"n_extra\":{},\"single_source\":{},\"embedded_source\":{},\"data_hex\":\"{}\",\"globals\":{},\"single\":{},\"embedded\":{},\"single_with_forced_search\":{}}}",
-            shards.total, json_str(if case.kind == Kind::Main { "main" } else { "of_nonpositive" }), json_str(&target), case.fast_scan, case.n_extra,
+            shards.total, json_str(match case.kind { Kind::Main => "main", Kind::NonPositive => "of_nonpositive", Kind::ForOf => "for_of" }), json_str(&target), case.fast_scan, case.n_extra,
             json_str(&join_sources(&single_src)), json_str(&join_sources(&case.embedded)), hex(&case.data), gv_json(&case.globals),
             json_slice(&single), json_slice(&embedded), json_slice(&warm));
         if samples.len() < 2 && case.n_extra > 0 && case.n_extra < 4 { samples.push(format!("{{\"embedded_source\":{},\"data_hex\":\"{}\",\"slice\":{}}}", json_str(&join_sources(&case.embedded)), hex(&case.data), json_slice(&embedded))); }
